@@ -168,6 +168,9 @@ pub fn run(ctx: &Ctx) -> i32 {
             st.merge(ctx.run_prop(name, total / 2, move || recipe_strategy(len), move |r| Some(Case11::H(HistCase { oracle: "c11".into(), hist: elaborate(&cfg, r) }))));
         }
     }
+    if ctx.tier == Tier::Thorough {
+        st.merge(ctx.run_fuzz(20000, ctx.threads, &dispatch));
+    }
     finish(
         ctx,
         st,
